@@ -448,7 +448,8 @@ impl<'a, 'b> Gen<'a, 'b> {
             2 => self.lit_char(),
             _ => char::from_u32(a as u32 + self.src.range(100, 3000) as u32).unwrap_or(a),
         };
-        if a <= b {
+        if a <= b || self.src.chance(5) {
+            // (rarely) a reversed range: accepted by the compiler, matches nothing
             (a, b)
         } else {
             (b, a)
@@ -548,6 +549,9 @@ impl<'a, 'b> Gen<'a, 'b> {
             2 => {
                 if self.src.chance(40) {
                     Expr::anon("char")
+                } else if self.src.chance(10) {
+                    // the built-in (or the grammar's own) whitespace rule used like a regular rule
+                    Expr::anon("Whitespace")
                 } else {
                     match self.ref_target(ctx, false) {
                         Some(t) => Expr::anon(&t),
@@ -771,7 +775,11 @@ impl<'a, 'b> Gen<'a, 'b> {
                             let cands: Vec<usize> =
                                 (i + 1..self.names.len()).filter(|j| self.kinds[*j] == PK::CharClass).collect();
                             if cands.is_empty() {
-                                parts.push(CharPart::Char(self.lit_char()))
+                                if self.src.chance(60) {
+                                    parts.push(CharPart::Class("char".into()))
+                                } else {
+                                    parts.push(CharPart::Char(self.lit_char()))
+                                }
                             } else {
                                 let j = cands[self.src.pick(cands.len())];
                                 parts.push(CharPart::Class(self.names[j].clone()))
@@ -1179,6 +1187,9 @@ pub fn validate(g: &Grammar) -> Result<(), WfError> {
             RuleDef::CharClass(c) => {
                 for p in &c.parts {
                     if let CharPart::Class(n) = p {
+                        if n == "char" && g.find("char").is_none() {
+                            continue;
+                        }
                         if !matches!(g.find(n), Some(RuleDef::CharClass(_))) {
                             return Err(WfError::MissingRule(n.clone()));
                         }
